@@ -55,7 +55,7 @@ class AssemblyManager(object):
                 raise errors.DuplicateModules(m, mod, details=details)
         for overhang in modmap:
             m = modmap.get(overhang.reverse_complement())
-            if m is not None:
+            if m is not None and m is not modmap[overhang]:
                 details = "reverse-complementing overhangs: '{}'".format(m.overhang_start())
                 raise errors.DuplicateModules(m, modmap[overhang], details=details)
         return modmap
